@@ -44,8 +44,9 @@ func verifC08Seed() int64 {
 
 // verifC08Base is one valid stream produced by the package's own encoder.
 type verifC08Base struct {
-	name string
-	data []byte
+	name  string
+	data  []byte
+	light bool // quick tier: only unchanged / truncation / segment mutations, no byte and word substitution
 }
 
 // verifC08Case is one input handed to a decoder plus the recipe that produced it.
@@ -111,6 +112,9 @@ func verifC08Enumerate(bases, prefixes []verifC08Base, markers []byte, segs func
 		}
 	}
 	for _, b := range bases {
+		if b.light && tier != "thorough" {
+			continue
+		}
 		n := len(b.data)
 		lim := nByte
 		if lim > n {
@@ -143,6 +147,9 @@ func verifC08Enumerate(bases, prefixes []verifC08Base, markers []byte, segs func
 		}
 	}
 	for _, b := range bases {
+		if b.light && tier != "thorough" {
+			continue
+		}
 		n := len(b.data)
 		lim := nWord
 		if lim > n-1 {
@@ -763,7 +770,7 @@ func verifC08SIZSpecials(bases []verifC08Base) []verifC08Case {
 // verifC08CODSpecials: every value of the COD / QCD parameter bytes of valid streams (quick tier: except the
 // high byte of the COD layer count, whose boundary values the generic byte substitution already covers and
 // whose large values cost seconds per case).
-func verifC08CODSpecials(bases []verifC08Base, tier string) []verifC08Case {
+func verifC08CODSpecials(bases []verifC08Base, tier string, step int) []verifC08Case {
 	var out []verifC08Case
 	for _, b := range bases {
 		for _, m := range []byte{0x52, 0x5C} {
@@ -776,7 +783,7 @@ func verifC08CODSpecials(bases []verifC08Base, tier string) []verifC08Case {
 				if m == 0x52 && o == p+6 && tier != "thorough" {
 					continue
 				}
-				for v := 0; v < 256; v++ {
+				for v := 0; v < 256; v += step {
 					if int(b.data[o]) == v {
 						continue
 					}
@@ -826,7 +833,7 @@ func verifC08J2KDomain(tier string, nb int, extra string, layerFilter bool) stri
 		n, w, r = 1500, 1500, 6000
 		vals = "all 256 values"
 	}
-	return fmt.Sprintf("tier=%s seed=%d; %d valid codestreams (%s); each: unchanged, every truncation (streams > 4 KiB: first 1024 offsets then stride), byte substitution at first %d bytes x %s, 16-bit big-endian substitution {0,1,0x7fff,0x8000,0xffff} at first %d offsets, marker-segment drop/dup/swap/move-first (main header, SOT, first tile-part header); %d seeded random strings per start prefix (SOC; SOC+valid SIZ; valid header through first SOD); handcrafted SIZ field grids (32-bit extents incl. Xsiz<XOsiz and 2^32-1, tile sizes 0/1, Csiz, Ssiz/XRsiz/YRsiz) and all 256 values of every COD and QCD byte on selected streams;%s inputs whose independently parsed SIZ (any FF51 position) declares (Xsiz-XOsiz)*(Ysiz-YOsiz)*Csiz > 2^22 (wrapping int64) are skipped",
+	return fmt.Sprintf("tier=%s seed=%d; %d valid codestreams (%s); each: unchanged, every truncation (streams > 4 KiB: first 1024 offsets then stride), byte substitution at first %d bytes x %s, 16-bit big-endian substitution {0,1,0x7fff,0x8000,0xffff} at first %d offsets, marker-segment drop/dup/swap/move-first (main header, SOT, first tile-part header); %d seeded random strings per start prefix (SOC; SOC+valid SIZ; valid header through first SOD); handcrafted SIZ field grids (32-bit extents incl. Xsiz<XOsiz and 2^32-1, tile sizes 0/1, Csiz, Ssiz/XRsiz/YRsiz) and all 256 values (quick tier of the decoder packages: every 3rd value) of every COD and QCD byte on selected streams;%s inputs whose independently parsed SIZ (any FF51 position) declares (Xsiz-XOsiz)*(Ysiz-YOsiz)*Csiz > 2^22 (wrapping int64) are skipped",
 		tier, verifC08Seed(), nb, extra, n, vals, w, r, lf)
 }
 
@@ -921,6 +928,7 @@ type verifC08J2KCfg struct {
 	prog              uint8
 	pw, ph            int
 	roi, mctBind      bool
+	light             bool
 }
 
 func (c verifC08J2KCfg) String() string {
@@ -932,14 +940,14 @@ func verifC08Bases(t *testing.T) []verifC08Base {
 	cfgs := []verifC08J2KCfg{
 		{w: 1, h: 1, comps: 1, bits: 8, levels: 0, layers: 1, lossless: true, cbw: 64, cbh: 64},
 		{w: 8, h: 8, comps: 1, bits: 8, levels: 1, layers: 1, lossless: true, cbw: 64, cbh: 64},
-		{w: 17, h: 5, comps: 1, bits: 16, levels: 2, layers: 1, lossless: true, cbw: 64, cbh: 64},
+		{w: 17, h: 5, comps: 1, bits: 16, levels: 2, layers: 1, lossless: true, cbw: 64, cbh: 64, light: true},
 		{w: 17, h: 5, comps: 3, bits: 8, levels: 1, layers: 1, lossless: true, mct: true, cbw: 64, cbh: 64},
-		{w: 17, h: 5, comps: 3, bits: 8, levels: 1, layers: 1, lossless: true, mct: false, cbw: 64, cbh: 64},
+		{w: 17, h: 5, comps: 3, bits: 8, levels: 1, layers: 1, lossless: true, mct: false, cbw: 64, cbh: 64, light: true},
 		{w: 8, h: 8, comps: 3, bits: 8, levels: 2, layers: 1, lossless: false, mct: true, cbw: 64, cbh: 64},
-		{w: 17, h: 5, comps: 1, bits: 12, levels: 1, layers: 2, lossless: true, cbw: 64, cbh: 64},
+		{w: 17, h: 5, comps: 1, bits: 12, levels: 1, layers: 2, lossless: true, cbw: 64, cbh: 64, light: true},
 		{w: 17, h: 5, comps: 1, bits: 8, levels: 1, layers: 1, lossless: true, tw: 8, th: 4, cbw: 64, cbh: 64},
 		{w: 33, h: 20, comps: 1, bits: 8, levels: 2, layers: 2, lossless: false, tw: 16, th: 16, cbw: 4, cbh: 4, prog: 2, pw: 16, ph: 16},
-		{w: 8, h: 8, comps: 1, bits: 16, signed: true, levels: 0, layers: 1, lossless: true, cbw: 8, cbh: 8, prog: 4},
+		{w: 8, h: 8, comps: 1, bits: 16, signed: true, levels: 0, layers: 1, lossless: true, cbw: 8, cbh: 8, prog: 4, light: true},
 		{w: 8, h: 8, comps: 1, bits: 8, levels: 1, layers: 1, lossless: true, cbw: 64, cbh: 64, roi: true},
 		{w: 8, h: 8, comps: 2, bits: 8, levels: 0, layers: 1, lossless: true, mct: true, cbw: 64, cbh: 64, mctBind: true},
 	}
@@ -972,7 +980,7 @@ func verifC08Bases(t *testing.T) []verifC08Base {
 			if err := chk.Decode(d); err != nil {
 				t.Logf("decoder rejects the encoder's own output for %s: %v", c, err)
 			}
-			out = append(out, verifC08Base{name: c.String(), data: d})
+			out = append(out, verifC08Base{name: c.String(), data: d, light: c.light})
 		}()
 	}
 	return out
@@ -1037,7 +1045,7 @@ func verifC08Setup(t *testing.T) (decs []verifC08Decoder, enumerate func(fn func
 	if len(bases) > 7 {
 		sel = append(sel, bases[7])
 	}
-	specials := append(verifC08SIZSpecials(sel), verifC08CODSpecials(sel[:2], verifC08Tier())...)
+	specials := append(verifC08SIZSpecials(sel), verifC08CODSpecials(sel[:2], verifC08Tier(), map[bool]int{true: 1, false: 3}[verifC08Tier() == "thorough"])...)
 	for _, i := range []int{1, 3, 5} {
 		maxLayers := 0xffff
 		if i != 1 && verifC08Tier() != "thorough" {
@@ -1083,7 +1091,7 @@ func verifC08Setup(t *testing.T) (decs []verifC08Decoder, enumerate func(fn func
 			}
 		}
 	}
-	return verifC08Decoders(), enumerate, verifC08J2KDomain(tier, len(bases), "jpeg2000.Encoder: 1x1, 8x8, 17x5, 33x20; 1, 2 and 3 components; one with ROI/RGN, one with Part-2 MCT/MCC/MCO binding; 8/12/16 bit, signed 16; 0-2 levels; 1-2 layers; reversible and irreversible; MCT on/off; single tile, 8x4 and 16x16 tiles; 64x64, 8x8, 4x4 code-blocks; LRCP/RPCL/CPRL", true)
+	return verifC08Decoders(), enumerate, verifC08J2KDomain(tier, len(bases), "jpeg2000.Encoder: 1x1, 8x8, 17x5, 33x20; 1, 2 and 3 components; one with ROI/RGN, one with Part-2 MCT/MCC/MCO binding; 8/12/16 bit, signed 16; 0-2 levels; 1-2 layers; reversible and irreversible; MCT on/off; single tile, 8x4 and 16x16 tiles; 64x64, 8x8, 4x4 code-blocks; LRCP/RPCL/CPRL; quick tier: 4 of the streams get no byte/word substitution", true)
 }
 
 func TestVerif_C08_jpeg2000(t *testing.T) {
